@@ -5,6 +5,7 @@ import (
 	"go/ast"
 	"go/token"
 	"go/types"
+	"regexp"
 	"sort"
 	"strings"
 
@@ -233,7 +234,7 @@ func definiteStores(p *core.Program, nt *types.Named, writes map[*types.Var][]wr
 				out[fld] = "unconditional"
 			}
 			// map idiom: if f == nil || len(f) > 0 { f = make(...) }
-			if !w.top && w.how == "assign" && strings.Contains(w.cond, "len(") && strings.Contains(w.cond, "> 0") && strings.Contains(w.cond, fld.Name()) {
+			if !w.top && w.how == "assign" && mapIdiomTestsSameField(w.cond, fld.Name()) {
 				if _, ok := out[fld]; !ok {
 					out[fld] = "re-made when non-empty"
 				}
@@ -522,4 +523,20 @@ func checkC16(r *core.Run, p *core.Program) {
 	}
 
 	checkWaitGroups(r, p, a, "C16.cache-failure")
+}
+
+// mapIdiomTestsSameField: the condition is `F == nil || len(F) > 0` (either order, != 0 accepted) with the emptiness test
+// applied to the field that is re-made - a length test on another field does not make the reset happen when needed.
+func mapIdiomTestsSameField(cond, field string) bool {
+	m := regexp.MustCompile(`len\(([^()]*)\) *(?:> *0|!= *0)`).FindAllStringSubmatch(cond, -1)
+	if len(m) == 0 || !strings.Contains(cond, "||") {
+		return false
+	}
+	for _, g := range m {
+		op := strings.TrimSpace(g[1])
+		if op != field && !strings.HasSuffix(op, "."+field) {
+			return false
+		}
+	}
+	return true
 }
